@@ -207,7 +207,8 @@ def run_c06(ctx: common.Ctx):
             # block comments: attribution may differ after re-parse (C06 excludes it), their texts and order may not
             cf = [t.raw_text for t in f.token_store if type(t).__name__ == 'BlockComment']
             cg = [t.raw_text for t in g.token_store if type(t).__name__ == 'BlockComment']
-            if '\n'.join(x.strip('\r\n') for x in cf).split('\n') != '\n'.join(x.strip('\r\n') for x in cg).split('\n'):
+            norm = lambda xs: [ln.rstrip('\r') for ln in '\n'.join(x.strip('\r\n') for x in xs).split('\n')]
+            if norm(cf) != norm(cg):       # adjacent comments re-lex as one token; a CR before the LF belongs to the line end
                 ctx.monitor_failure('C06:comment-text-differs', f'after {hist[-1]} the block comment lines of the model {cf!r} are not '
                                     f'those of the re-parsed text {cg!r}', w)
                 break
